@@ -1,5 +1,11 @@
 """Contracts for src/dhkex.rs (the Diffie-Hellman group interface used by DHKEM)."""
 
+SK_TO_PK = '''
+        ensures /*@C03 C01*/ r.ser() == Self::s_pk_of(sk.ser())'''
+DERIVE = '''
+        ensures /*@C03 C02*/ (r.0.ser(), r.1.ser()) == Self::s_derive(nh_of::<Kdf::HashImpl>(), suite_id@, ikm@),
+                /*@C03*/ r.1.ser() == Self::s_pk_of(r.0.ser())'''
+
 def apply(F):
     F.use()
     F.wrap([], r'pub\(crate\) const MAX_PUBKEY_SIZE')
@@ -13,16 +19,10 @@ def apply(F):
     /// ghost: DeriveKeyPair (RFC 9180 §7.1.3) -> (serialized sk, serialized pk)
     spec fn s_derive(nh: nat, suite_id: Bytes, ikm: Bytes) -> (Bytes, Bytes);
 ''')
-    F.contract(T, r'fn sk_to_pk\b', ret='r', clauses='''
-        ensures /*@C03 C01*/ r.ser() == Self::s_pk_of(sk.ser())
-''')
+    F.contract(T, r'fn sk_to_pk\b', ret='r', clauses=SK_TO_PK + '\n')
     F.contract(T, r'fn dh\b', ret='r', clauses='''
         ensures /*@C10 C03*/ r is Ok <==> Self::s_dh(sk.ser(), pk.ser()) is Some,
                 /*@C03 C01*/ r is Ok ==> r.unwrap().ser() == Self::s_dh(sk.ser(), pk.ser()).unwrap()
 ''')
-    F.contract(T, r'fn derive_keypair<Kdf: KdfTrait>', ret='r', clauses='''
-        requires kdf_ok::<Kdf>(),
-        ensures /*@C03 C02*/ (r.0.ser(), r.1.ser()) == Self::s_derive(nh_of::<Kdf::HashImpl>(), suite_id@, ikm@),
-                /*@C03*/ r.1.ser() == Self::s_pk_of(r.0.ser())
-''')
+    F.contract(T, r'fn derive_keypair<Kdf: KdfTrait>', ret='r', clauses='\n        requires kdf_ok::<Kdf>(),' + DERIVE + '\n')
     F.wrap([], T[0])
